@@ -202,6 +202,24 @@ def run(ctx):
 
     drive.for_each_case(ctx, 'main', ctx.budget, body, gen=gen_main)
 
+    # refused values that cannot be printed (an int too long for str()): the text is still there, twice the same, and names the path
+    if ctx.shard == 0:
+        from .. import special
+        for j, (label, TT, vv) in enumerate(special.unprintable_cases()):
+            try:
+                out = observe(env.from_data, vv, TT)
+                ctx.count('unprintable_value_messages')
+                wit = {'type': short(TT, 100), 'value': 'an int with more digits than str() will print, as ' + label}
+                if out.kind != 'converr':
+                    ctx.violation('rendering-total', 'unprintable', j, {**wit, 'outcome': out.brief()[:300]}, mech=f"no-error-text:{type(out.exc).__name__ if out.kind == 'escape' else 'accepted'}")
+                    continue
+                r1, r2 = observe(str, out.exc), observe(str, out.exc.tree)
+                if r1.kind != 'value' or r2.kind != 'value' or r1.val != r2.val or not r1.val.startswith('Expected'):
+                    ctx.violation('rendering-never-raises', 'unprintable', j, {**wit, 'str(e)': r1.brief()[:300], 'str(e.tree)': r2.brief()[:300]},
+                                  mech=f"render-raised:{type(r1.exc).__name__ if r1.kind == 'escape' else ('differs' if r1.kind == 'value' else r1.kind)}")
+            except Exception as e:
+                ctx.crash('unprintable', j, e)
+
     # the message of a failing document stream names the position of every failing document, exactly as List[T] does for the same data
     def body_yaml_all(i, rng, ty, T):
         import io as _io
